@@ -160,7 +160,9 @@ fn make_effect(w: &Arc<World>, e: &EffSpec) -> Effect<Act> {
             let w = w.clone();
             let e2 = e.clone();
             Effect::Function(
-                format!("f{}", e.id),
+                // the key is a label the store does not interpret; several effects (of one store
+                // or of several) carry the same one
+                format!("f{}", e.id % 2),
                 Box::new(move || {
                     w.ctx.ev(Ev::Eff { eff: e2.id });
                     w.ctx.stall(e2.stall);
@@ -601,15 +603,30 @@ fn do_op(w: &Arc<World>, op: &Op) -> Res {
             slock(&w.subscriptions).insert((*store, *sub), Arc::new(rt::Mutex::new(Some(subscription))));
             Res::Ok
         }
+        Op::ForgetSubscription { store, sub } => {
+            let slot = slock(&w.subscriptions).remove(&(*store, *sub));
+            match slot {
+                Some(slot) => {
+                    let handle = rt::lock(&slot).take();
+                    drop(handle);
+                    Res::Ok
+                }
+                None => Res::Skipped,
+            }
+        }
         Op::Unsubscribe { store, sub } => {
             let slot = slock(&w.subscriptions).get(&(*store, *sub)).cloned();
             match slot {
                 Some(slot) => {
                     let g = rt::lock(&slot);
-                    if let Some(s) = g.as_ref() {
-                        s.unsubscribe();
+                    match g.as_ref() {
+                        Some(s) => {
+                            s.unsubscribe();
+                            Res::Ok
+                        }
+                        // the handle was dropped meanwhile (ForgetSubscription): nothing was called
+                        None => Res::Skipped,
                     }
-                    Res::Ok
                 }
                 None => Res::Skipped,
             }
